@@ -493,6 +493,29 @@ def chain_check(ctx):
                         rec.violation(f"C15:chain:or-chain-is-not-some-operand-matches:{n}", query=flat, annotation=str(objs[k]),
                                       got=a[k], operands={c: single[c][k] for c in combo})
     rec.outcome("chains")
+    # an '||' as an operand: '(a || b) op c' answers like '(b || a) op c' (negations among the operands, annotations with two
+    # groups)
+    anns2, _ = build_annotations(4, 2, 1)
+    objs2 = [env.HedString(render(t), env.schema) for t in anns2 if sum(1 for x in t if isinstance(x, list)) == 2]
+    atoms2 = ["red", "blue", "event", "sensory-event", "~red", "~blue", "~event"]
+    for a, b in itertools.combinations(atoms2, 2):
+        for c in atoms2:
+            for tmpl in ("({0} || {1}) && {2}", "{2} && ({0} || {1})", "[({0} || {1}) && {2}]"):
+                q1, q2 = tmpl.format(a, b, c), tmpl.format(b, a, c)
+                rec.n("evaluations", len(objs2))
+                rec.n("transitions", len(objs2))
+                rec.n("distinct_nontrivial", len(objs2))
+                try:
+                    r1 = [bool(env.search(q1, o)) for o in objs2]
+                    r2 = [bool(env.search(q2, o)) for o in objs2]
+                except Exception as e:
+                    rec.violation("C15:chain:raises:" + type(e).__name__, query=q1, error=repr(e)[:200])
+                    continue
+                if r1 != r2:
+                    k = next(i for i, (x, y) in enumerate(zip(r1, r2)) if x != y)
+                    rec.violation("C15:or-operand:alternatives-swapped-changes-the-answer", query=q1, swapped=q2,
+                                  annotation=str(objs2[k]), answer=r1[k], answer_swapped=r2[k])
+    rec.outcome("or-operands")
 
 
 def service_check(ctx):
